@@ -102,7 +102,9 @@ func cleanSuffix(val any) any {
 		for k, v := range t {
 			parts := strings.Split(k, "#")
 
-			result[parts[0]] = cleanSuffix(v)
+			// several variables addressing the same list arrive as `key#hash` siblings:
+			// merge them instead of letting the last one win
+			result[parts[0]] = merge(result[parts[0]], v)
 		}
 
 		return result
